@@ -17,7 +17,7 @@ CLAIMED = {
 
 CLAIMED.update({
     'C12': dict(
-        text='Theorems C12_rows_chunk_independent and C12_records_chunk_independent (header, records, warnings, error through comment skipping, RFC assembly and header logic depend only on the content): for EVERY partition of a text into non-empty pieces and every chunk size >= 1 the Python reader model returns the lines of the whole text '
+        text='C12_records_are_the_split_lines / C12_rfc_records_are_the_assembled_lines (WHAT the reader returns, for every chunking: the physical lines of the text, BOM removed from the first, comment lines dropped, each split by the policy; header; exactly the BOM / first-defective-line / field-count warnings), C12_bom_seen_iff; theorems C12_rows_chunk_independent and C12_records_chunk_independent (header, records, warnings, error through comment skipping, RFC assembly and header logic depend only on the content): for EVERY partition of a text into non-empty pieces and every chunk size >= 1 the Python reader model returns the lines of the whole text '
              '(LF/CR/CRLF, CRLF across reads = one break, unterminated last line, BOM dropped); proved by invariant + induction, no size bound. The real CSVRecordIterator is tied to the model '
              'by running it over ALL partitions x ALL chunk sizes of every short text (and byte partitions of multi-byte samples) and comparing records, header and warnings.',
         note='Trusted: Lean kernel + standard axioms; TextIOWrapper decoding/universal newlines are modelled (CR/CRLF -> LF), tied dynamically; a read returns "" only at EOF.',
@@ -29,7 +29,7 @@ CLAIMED.update({
         note='Trusted: Lean kernel + standard axioms; evaluation of user expressions by CPython (opaque functions in the theorems); the model/engine tie is the correspondence.',
         ref='DESIGN.md section 7, C01'),
     'C02': dict(
-        text='C02_sort_dedup_truncate: for every chain shape the engine model outputs take-n(dedup(stable-sort(emissions))); C02_bound_is_take; first-occurrence and multiplicity lemmas; writer protocol. '
+        text='C02_host_can_order_keys (the host language raises TypeError on None / mixed-type sort keys: Spec/Comparable.lean models exactly which keys it can order, the driver answers with runChecked, about a hundred TypeError outcomes per run agree with Python); C02_sort_dedup_truncate: for every chain shape the engine model outputs take-n(dedup(stable-sort(emissions))); C02_bound_is_take; first-occurrence and multiplicity lemmas; writer protocol. '
              'Real engine tied on tie-heavy tables x all clause combinations with the pulled-record count observed, plus metamorphic oracles (bound = prefix, DESC = reverse) and a never-ending iterator; common-class cases also on the real rbql-js engine.',
         note='Hypotheses: comparable ORDER BY keys, hashable DISTINCT rows, no failing evaluation for the unbounded query. Stable-sort properties and the early-stop (tail irrelevance) theorem are in Proofs/OrderAndStop.lean when present.',
         ref='DESIGN.md section 7, C02'),
@@ -50,7 +50,7 @@ CLAIMED.update({
         note='Trusted: Lean kernel + standard axioms; host exception texts are classified, not modelled; parsing errors detected from the query text are checked on the implementation directly (no parser model yet).',
         ref='DESIGN.md section 7, C14'),
     'C03': dict(
-        text='C03_one_row_per_key_sorted (run = aggRowsSpec: one row per distinct key among passing records, ascending, TOP applied) by a bridge theorem for the aggregate branch of the main loop; every accumulator '
+        text='C03_result_characterised (no error; strictly ascending duplicate-free key list = the keys that occur; each column the fold of its accumulator), C03_median_is_middle_of_sorted, C03_variance_nonneg, C03_host_can_order_keys (run is the real engine exactly when the group keys are mutually comparable; otherwise Python raises TypeError: modelled as runChecked and tied); C03_one_row_per_key_sorted (run = aggRowsSpec: one row per distinct key among passing records, ascending, TOP applied) by a bridge theorem for the aggregate branch of the main loop; every accumulator '
              'proved equal to the mathematical aggregate of its group in input order (COUNT, SUM, MIN/MAX as true extrema, AVG, population VARIANCE = mean squared deviation, MEDIAN, ARRAY_AGG order, ANY_VALUE first), '
              'non-constant column fails iff two distinct values incl. None, builtin dispatch decision table. Real engine tied on grouped numeric tables with exact rational comparison, plus a direct check of min/max/sum dispatch; numeric pools around zero (zero / negative / tiny) and the common-class cases also on the real rbql-js engine.',
         note='Hypotheses: homogeneous numeric arguments (numeric strings of -?d+(.d+)? or numbers), comparable keys; IEEE rounding outside the model (values recovered as exact rationals).',
@@ -91,9 +91,9 @@ CLAIMED.update({
         note='Partial: the regex-driven variable discovery (parse_dictionary_variables / parse_attribute_variables) is exercised, not modelled; names with an a.ident/b.ident token excluded (acknowledged limitation).',
         ref='DESIGN.md section 7, C09'),
     'C13': dict(
-        text='C13_engine_depends_on_records_only, C13_frontends_agree (any two faithful adapters), C13_csv_adapter_faithful_line/file (C10 + C12 composed), C13_cli_outcome (decision table of the command line). '
+        text='C13_csv_frontend_faithful_quoted / _simple (a table written by the CSV writer and read back by the reader MACHINE in any chunking, LF/CRLF/CR, is the table, header first, no warning but the field-count warning of a ragged table: query_csv sees what query_table is given); C13_engine_depends_on_records_only, C13_frontends_agree (any two faithful adapters), C13_csv_adapter_faithful_line/file (C10 + C12 composed), C13_cli_outcome (decision table of the command line). '
              'The REAL entry points — query_table, query with user iterator/writer, query_csv, python -m rbql (file and stdin/stdout; out-format input/csv/tsv), pandas, sqlite + query_sqlite_to_csv — are run on the same '
-             'queries and data and compared; CLI exit status / stdout / stderr discipline on success, warnings and four error classes.',
+             'queries and data (incl. JOIN with the join table as list / CSV file / DataFrame / sqlite table, sqlite tables with generated columns) and compared; CLI exit status / stdout / stderr discipline on success, warnings and four error classes.',
         note='Partial: pandas, sqlite3, argparse and the process boundary are third-party adapters assumed faithful in the theorem and tied only dynamically.',
         ref='DESIGN.md section 7, C13'),
     'C16': dict(
